@@ -22,6 +22,8 @@ def enc_cat(c):
     if isinstance(c, Atom):
         return {'k': 'A', 'b': c.base, 'f': enc_feat(c.feature)}
     if isinstance(c, Functor):
+        if not isinstance(c.slash, str):
+            raise TypeError('functor whose slash is not text: %r' % (c.slash,))
         return {'k': 'F', 'l': enc_cat(c.left), 's': c.slash, 'r': enc_cat(c.right)}
     raise TypeError('not a category: %r' % (c,))
 
